@@ -27,7 +27,7 @@ DIMS = {
     "stack": ["base", "one", "three", "three_rev", "four"],
     "place": ["t", "id", "r90", "r180", "r30", "r45", "r1", "mx", "my", "md", "s2", "s05", "nu", "nu2", "sk", "out", "tiny", "near", "off05", "far"],
     "donor_paint": ["red", "rgba", "named", "omitted", "opacity", "current", "current_op", "var", "var_op"],
-    "copy_paint": ["blue", "same", "alpha", "current", "var", "lin_bbox", "lin_user", "rad_bbox", "rad_focal_fr"],
+    "copy_paint": ["blue", "same", "black", "alpha", "current", "var", "lin_bbox", "lin_user", "rad_bbox", "rad_focal_fr"],
     "lin_vec": ["bbox_h", "diag", "vert", "pct", "short", "user"],
     "lin_gt": ["none", "rot", "nonuniform", "skew", "translate", "involutory", "rotscale"],
     "lin_spread": ["pad", "repeat", "reflect"],
@@ -169,7 +169,7 @@ def mk(a):
     donor_op = 0.5 if dp in ("opacity", "current_op", "var_op") else 1.0
     cpn = a["copy_paint"]
     copy_paint = {
-        "blue": Solid("blue"), "same": donor_paint, "alpha": Solid("blue"), "current": Solid("black", current=True),
+        "blue": Solid("blue"), "same": donor_paint, "black": Solid("black"), "alpha": Solid("blue"), "current": Solid("black", current=True),
         "var": Solid("blue", pal=2),
         "lin_bbox": Linear("lg2", 0, 0, 1, 1, STOPS2),
         "lin_user": Linear("lg2", *U(20, 10), *U(80, 70), STOPS2, units="userSpaceOnUse"),
